@@ -200,6 +200,81 @@ func c02ReachesSuspected(t *testing.T, rep *Report) {
 	}
 }
 
+// c02AdvertiseLookupFails: the transport could name the node's advertise address at start-up and cannot
+// any more (the interface went away). Every kind of accusation must still be outranked AND the alive
+// message carrying the new incarnation must be queued and reach the transport at the next gossip round.
+func c02AdvertiseLookupFails(t *testing.T, rep *Report) {
+	for _, kind := range []string{"suspect", "dead", "alive-newer", "pp-suspect", "pp-dead"} {
+		for _, ahead := range []uint32{0, 1, 6} {
+			kind, ahead := kind, ahead
+			desc := fmt.Sprintf("advertise-address lookup fails, then a %s claim about the node at own+%d", kind, ahead)
+			rep.Transitions++
+			res := inBubble(t, func(b *bubble) {
+				installDetRand()
+				nd, err := newNode("o", ip4(1))
+				must(err)
+				o := b.track(nd)
+				advance(time.Microsecond)
+				o.M.VAliveNode(&ml.VAlive{Incarnation: 1, Node: "p1", Addr: ip4(10), Port: 7946, Vsn: defaultVsn}, nil, false)
+				for o.M.VBroadcasts().NumQueued() > 0 {
+					o.M.VGetBroadcasts(0, 1400)
+				}
+				o.T.mu.Lock()
+				o.T.AdvertiseErr = true
+				o.T.mu.Unlock()
+				own := o.M.VSnapshot().Incarnation
+				claim := own + ahead
+				switch kind {
+				case "suspect":
+					o.M.VSuspectNode(&ml.VSuspect{Incarnation: claim, Node: "o", From: "p1"})
+				case "dead":
+					o.M.VDeadNode(&ml.VDead{Incarnation: claim, Node: "o", From: "p1"})
+				case "alive-newer":
+					claim++
+					o.M.VAliveNode(&ml.VAlive{Incarnation: claim, Node: "o", Addr: ip4(1), Port: 7946, Meta: []byte("not mine"), Vsn: defaultVsn}, nil, false)
+				case "pp-suspect", "pp-dead":
+					st := ml.StateSuspect
+					if kind == "pp-dead" {
+						st = ml.StateDead
+					}
+					_ = o.M.VMergeRemoteState(false, []ml.VPushNodeState{{Name: "o", Addr: ip4(1), Port: 7946, Incarnation: claim, State: st, Vsn: defaultVsn}}, nil)
+				}
+				settle()
+				s := o.M.VSnapshot()
+				if s.Incarnation <= claim {
+					rep.Violate("not-refuted", fmt.Sprintf("%s: own incarnation %d after a claim at %d", desc, s.Incarnation, claim), nil)
+					return
+				}
+				if r := findRec(s, "o"); r == nil || r.State != ml.StateAlive {
+					rep.Violate("self-not-alive", fmt.Sprintf("%s: %s", desc, recStr(r)), nil)
+					return
+				}
+				o.T.TakeSent()
+				for i := 0; i < 3; i++ {
+					o.M.VGossip()
+					settle()
+				}
+				sent := false
+				for _, p := range o.T.TakeSent() {
+					leaves, _ := explode(p.Buf)
+					for _, l := range leaves {
+						var a ml.VAlive
+						if l[0] == ml.VAliveMsg && ml.VDecode(l[1:], &a) == nil && a.Node == "o" && a.Incarnation > claim {
+							sent = true
+						}
+					}
+				}
+				if !sent {
+					rep.Violate("refutation-never-sent", fmt.Sprintf("%s: the node raised its incarnation to %d but no alive message above the claim reached the transport in 3 gossip rounds", desc, s.Incarnation), nil)
+				}
+			})
+			if res.Panic != nil {
+				rep.Violate("panic", fmt.Sprintf("%s: %v", desc, res.Panic), nil)
+			}
+		}
+	}
+}
+
 func TestC02(t *testing.T) {
 	rep := newReport()
 	defer rep.Write(t)
@@ -233,6 +308,7 @@ func TestC02(t *testing.T) {
 	if i, _ := shard(); i == 0 {
 		sc.bfs(t, rep, "default")
 		c02ReachesSuspected(t, rep)
+		c02AdvertiseLookupFails(t, rep)
 	}
 	tb := 2
 	if thorough() {
